@@ -335,7 +335,19 @@ def rule_7(ctx):
     hist = {k: v for k, v in AGG_CELLS.items() if k[0] in 'ABD' or k in ('H1', 'H2', 'H3', 'H4', 'S1', 'T2', 'T1', 'U1')}
     S.check_history(ctx, anchor, 'aggregate history', hist, steps, cache={}, check_stored=False,
                     why='An aggregate is the fold of the values its cells hold now.')
-    ctx.floor(95, 'aggregate cells + history steps')
+    seq = []
+    for vals in ((1, 2, 3), (True, 2, 3), (1.0, 2, 3), (0, False, 0.0), (1, True, 1.0, '1'), ('a', 1), (0,), (False,), (2.5, -3, 7, 1)):
+        seq += [(f, vals) for f in ('SUM', 'AVERAGE', 'MIN', 'MAX', 'COUNT', 'COUNTA')]
+    S.check_call_sequence(ctx, 'aggregates', seq + list(reversed(seq)), models=V_numpy())
+    ctx.floor(200, 'aggregate cells + history steps')
+
+
+def V_numpy():
+    from . import values as V
+    from . import workbook as W
+    models = V.numpy_models()
+    models['ext:dateutil.parser.parse'] = W._nodate          # the witness texts are no dates
+    return models
 
 
 def V_registered(ctx, name):
